@@ -21,10 +21,22 @@
 EXTENDS ScanContract
 
 Put(f, k, v) == (k :> v) @@ f
-St0 == [dirs |-> 0, files |-> 0, links |-> 0, bytes |-> 0, cache |-> <<>>, icache |-> <<>>, err |-> FALSE]
+St0 == [dirs |-> 0, files |-> 0, links |-> 0, bytes |-> 0, cache |-> <<>>, icache |-> <<>>, err |-> FALSE,
+        hasher |-> <<>>, cancelled |-> FALSE]
+
+\* ---- the long-lived hasher ---------------------------------------------------
+\* The hash.Hash handed to Scan outlives the scan (an endpoint uses one hasher for all its scans, also for the retry
+\* of a scan that failed or was cancelled part-way).  Its state is the sequence of chunks written since the last
+\* Reset.  A file's content is Chunks(node); Sum yields the file's digest exactly when the state is that sequence.
+\* Hashing one file is  begin (Reset) -> chunk -> [abort?] -> chunk -> Sum;  an abort between the chunks is a
+\* cancellation (the scan fails), a read error or a size mismatch (the file becomes a problem, the scan goes on).
+Chunks(node) == <<node.d \o "/1", node.d \o "/2">>
+SumOf(h, node) == IF h = Chunks(node) THEN node.d ELSE "wrong:" \o node.d
+NoAbort == [path |-> <<"-no-abort-">>, kind |-> "none"]
 Res(e, st) == [e |-> e, st |-> st]
 
-\* env = [cfg, dirty (set of paths), ocache, oicache, linux]
+\* env = [cfg, dirty (set of paths), ocache, oicache, linux, abort ([path, kind]: where hashing is abandoned),
+\*        resetBefore (TRUE = the code: Reset before the copy; FALSE = the control variant "Reset after Sum")]
 \* digest-cache entries: [m, mt, sz, ino, d]   (only regular files are ever cached, so the
 \* code's comparison of the type bits is vacuous and is not represented)
 CacheEntryOf(node, digest) == [m |-> node.m, mt |-> node.mt, sz |-> node.sz, ino |-> node.ino, d |-> digest]
@@ -35,11 +47,19 @@ AFile(node, path, env, st) ==
       cached == env.ocache[path]
       cacheContentMatch == hit /\ node.mt = cached.mt /\ node.sz = cached.sz /\ node.ino = cached.ino
       cacheEntryReusable == cacheContentMatch /\ node.m = cached.m
+      h0 == IF env.resetBefore THEN <<>> ELSE st.hasher               \* s.hasher.Reset()
+      h1 == Append(h0, Chunks(node)[1])                               \* io.CopyBuffer: the first writes
+      h2 == Append(h1, Chunks(node)[2])                               \* ... the rest
   IN IF ~cacheContentMatch /\ ~node.rd THEN Res(Prob, st)          \* the file has to be opened and cannot be
-     ELSE LET digest == IF cacheContentMatch THEN cached.d ELSE node.d
+     ELSE IF ~cacheContentMatch /\ env.abort.path = path
+     THEN (IF env.abort.kind = "cancel"
+           THEN Res(Prob, [st EXCEPT !.hasher = h1, !.cancelled = TRUE, !.err = TRUE])   \* ErrWritePreempted -> ErrScanCancelled
+           ELSE Res(Prob, [st EXCEPT !.hasher = h1]))                                   \* read error / hashed size mismatch
+     ELSE LET digest == IF cacheContentMatch THEN cached.d ELSE SumOf(h2, node)        \* s.hasher.Sum(nil)
               entry == IF cacheEntryReusable THEN cached ELSE CacheEntryOf(node, digest)
+              hEnd == IF cacheContentMatch THEN st.hasher ELSE IF env.resetBefore THEN h2 ELSE <<>>
           IN Res(F(digest, Executable(node, env.cfg)),
-                 [st EXCEPT !.files = @ + 1, !.bytes = @ + node.sz, !.cache = Put(@, path, entry)])
+                 [st EXCEPT !.files = @ + 1, !.bytes = @ + node.sz, !.cache = Put(@, path, entry), !.hasher = hEnd])
 
 \* scanner.symbolicLink + the symbolic link mode switch of scanner.directory
 ALink(node, depth, env, st) ==
@@ -103,7 +123,7 @@ AKid(node, n, path, base, mask, env, st, acc) ==
        IN [c |-> Put(acc, key, r.e), st |-> r.st]
 
 AKids(node, S, path, base, mask, env, st, acc) ==
-  IF S = {} THEN [c |-> acc, st |-> st]
+  IF S = {} \/ st.cancelled THEN [c |-> acc, st |-> st]          \* a cancelled scan returns at once
   ELSE LET n == CHOOSE x \in S : TRUE
            r == AKid(node, n, path, base, mask, env, st, acc)
        IN AKids(node, S \ {n}, path, base, mask, env, r.st, r.c)
@@ -127,28 +147,34 @@ DirtyClosure(paths) == UNION {ProperPrefixes(p) \cup {p} : p \in paths}
 NoBaseline == [ok |-> FALSE]
 Result(content, st, cfg) ==
   [ok |-> ~st.err, content |-> content, dirs |-> st.dirs, files |-> st.files, links |-> st.links, bytes |-> st.bytes,
-   pres |-> cfg.pres, decomp |-> cfg.decomp, cache |-> st.cache, icache |-> st.icache]
+   pres |-> cfg.pres, decomp |-> cfg.decomp, cache |-> st.cache, icache |-> st.icache, hasher |-> st.hasher]
 
 RootKind(e) == IF e.k = "dir" THEN "dir" ELSE IF e.k = "file" THEN "file" ELSE "x"
 
 \* Scan.  baseline: a previous Result (or NoBaseline), ocache/oicache the caches that came with it,
-\* recheck: a set of [raw, nfc] re-check paths.
-AScan(facts, cfg, baseline, recheck, ocache, oicache, linux) ==
-  IF facts.t = "none" THEN Result(Nil, St0, [pres |-> FALSE, decomp |-> FALSE])   \* no root: empty snapshot
-  ELSE IF ~Scannable(facts) THEN NoBaseline                                      \* "unable to open synchronization root"
+\* recheck: a set of [raw, nfc] re-check paths, hasher0: the state the caller's hasher is in, abort: where (if
+\* anywhere) hashing is abandoned during this scan.
+AScanH(facts, cfg, baseline, recheck, ocache, oicache, linux, hasher0, abort, resetBefore) ==
+  IF facts.t = "none" THEN Result(Nil, [St0 EXCEPT !.hasher = hasher0], [pres |-> FALSE, decomp |-> FALSE])   \* no root: empty snapshot
+  ELSE IF ~Scannable(facts) THEN [ok |-> FALSE, hasher |-> hasher0]                 \* "unable to open synchronization root"
   ELSE
   LET baselineValid == /\ baseline.ok /\ baseline.content # Nil
                        /\ RootKind(baseline.content) = facts.t
                        /\ baseline.pres = cfg.pres /\ baseline.decomp = cfg.decomp
   IN
-  IF baselineValid /\ recheck = {} THEN [baseline EXCEPT !.cache = ocache, !.icache = oicache]
+  IF baselineValid /\ recheck = {} THEN [hasher |-> hasher0] @@ [baseline EXCEPT !.cache = ocache, !.icache = oicache]
   ELSE
   LET env == [cfg |-> cfg, dirty |-> IF baselineValid THEN DirtyClosure(ScanPaths(recheck, cfg)) ELSE {},
-              ocache |-> ocache, oicache |-> oicache, linux |-> linux]
+              ocache |-> ocache, oicache |-> oicache, linux |-> linux, abort |-> abort, resetBefore |-> resetBefore]
+      st0 == [St0 EXCEPT !.hasher = hasher0]
       r == IF facts.t = "dir"
-           THEN ADir(facts, <<>>, IF baselineValid THEN baseline.content ELSE Nil, FALSE, env, St0)
-           ELSE AFile(facts, <<>>, env, St0)
+           THEN ADir(facts, <<>>, IF baselineValid THEN baseline.content ELSE Nil, FALSE, env, st0)
+           ELSE AFile(facts, <<>>, env, st0)
   IN Result(r.e, r.st, cfg)
+
+\* a scan that is not disturbed, with a hasher in its initial state
+AScan(facts, cfg, baseline, recheck, ocache, oicache, linux) ==
+  AScanH(facts, cfg, baseline, recheck, ocache, oicache, linux, <<>>, NoAbort, TRUE)
 
 ColdScan(facts, cfg) == AScan(facts, cfg, NoBaseline, {}, <<>>, <<>>, TRUE)
 
